@@ -46,11 +46,11 @@ type System interface {
 }
 
 type BFS struct {
-	New     func() System
-	Roots   [][]Event // initial histories (work items); nil = the empty history
-	MaxUser int       // bound on user events per history
-	MaxFault int      // bound on fault events (deviations) per history
-	Horizon int       // bound on total events per history (reported when hit)
+	New      func() System
+	Roots    [][]Event // initial histories (work items); nil = the empty history
+	MaxUser  int       // bound on user events per history
+	MaxFault int       // bound on fault events (deviations) per history
+	Horizon  int       // bound on total events per history (reported when hit)
 	// Before is called on the live pre-state right before ev is applied; its result is handed to After.
 	Before func(sys System, ev Event) interface{}
 	// After is the edge oracle; newState tells whether the reached state is new.
@@ -65,6 +65,22 @@ type BFS struct {
 	MaxChoiceDev int
 
 	seen map[string]bool
+	// Settle analysis (livelock detection): when Quiescent is set, Run records the graph of plain delivery transitions
+	// (neither user nor fault events) and, after a complete search, calls OnLivelock for states from which no
+	// quiescent state can be reached by deliveries alone - whatever the delivery order, the system never settles.
+	Quiescent  func(s System) bool
+	OnLivelock func(hist []Event, stuckStates int)
+	ids        map[string]int32
+	succ       [][]int32
+	quies      []bool
+	parent     []int32
+	parentEv   []Event
+	rootOf     map[int32][]Event
+	cutStates  map[int32]bool
+
+	// OnHorizon is called (once per state) when a history reaches the horizon with events still enabled: the system
+	// did not become quiescent within Horizon events (a harness decides whether that is a livelock).
+	OnHorizon func(s System, hist []Event)
 }
 
 func userCount(h []Event) int {
@@ -134,6 +150,11 @@ func (b *BFS) Run() bool {
 			b.seen[k0] = true
 			b.Res.Count("states", 1)
 			frontier = append(frontier, root)
+			if b.Quiescent != nil {
+				id := b.stateID(k0, s0)
+				b.parent[id] = -1
+				b.rootOf[id] = root
+			}
 		}
 	}
 	{
@@ -153,6 +174,12 @@ func (b *BFS) Run() bool {
 			h := frontier[0]
 			frontier = frontier[1:]
 			sys := b.build(h)
+			sys0 := sys
+			horizonReported := false
+			var srcID int32 = -1
+			if b.Quiescent != nil {
+				srcID = b.stateID(sys.Key(), sys)
+			}
 			evs := sys.Enabled()
 			uc := userCount(h)
 			fc := faultCount(h)
@@ -165,6 +192,13 @@ func (b *BFS) Run() bool {
 				}
 				if len(h) >= b.Horizon {
 					b.Res.Count("horizon_hits", 1)
+					if srcID >= 0 {
+						b.cutStates[srcID] = true
+					}
+					if b.OnHorizon != nil && !horizonReported {
+						horizonReported = true
+						b.OnHorizon(sys0, h)
+					}
 					continue
 				}
 				// the event under its default choices, then - if choice exploration is on - under every vector
@@ -199,6 +233,15 @@ func (b *BFS) Run() bool {
 					if b.After != nil {
 						b.After(s2, nh, ev, pre, isNew)
 					}
+					if srcID >= 0 {
+						dst := b.stateID(k, s2)
+						if !ev.User && !ev.Fault && len(ev.C) == 0 {
+							b.succ[srcID] = append(b.succ[srcID], dst)
+						}
+						if isNew {
+							b.parent[dst], b.parentEv[dst] = srcID, ev
+						}
+					}
 					if isNew {
 						b.seen[k] = true
 						b.Res.Count("states", 1)
@@ -210,7 +253,95 @@ func (b *BFS) Run() bool {
 			}
 		}
 	}
+	if complete && b.Quiescent != nil && b.OnLivelock != nil {
+		b.settleAnalysis()
+	}
 	return complete
+}
+
+func (b *BFS) stateID(key string, s System) int32 {
+	if b.ids == nil {
+		b.ids, b.rootOf, b.cutStates = map[string]int32{}, map[int32][]Event{}, map[int32]bool{}
+	}
+	if id, ok := b.ids[key]; ok {
+		return id
+	}
+	id := int32(len(b.succ))
+	b.ids[key] = id
+	b.succ = append(b.succ, nil)
+	b.quies = append(b.quies, b.Quiescent(s))
+	b.parent = append(b.parent, -1)
+	b.parentEv = append(b.parentEv, Event{})
+	return id
+}
+
+// settleAnalysis: backward reachability from the quiescent states over the delivery edges; what is left cannot settle.
+func (b *BFS) settleAnalysis() {
+	n := len(b.succ)
+	pred := make([][]int32, n)
+	for u, vs := range b.succ {
+		for _, v := range vs {
+			pred[v] = append(pred[v], int32(u))
+		}
+	}
+	ok := make([]bool, n)
+	var stack []int32
+	for i := 0; i < n; i++ {
+		// quiescent states settle; states cut at the horizon or never expanded (user/fault bound leaves) are not judged
+		if b.quies[i] || b.cutStates[int32(i)] {
+			ok[i] = true
+			stack = append(stack, int32(i))
+		}
+	}
+	expanded := make([]bool, n)
+	for u := range b.succ {
+		if len(b.succ[u]) > 0 {
+			expanded[u] = true
+		}
+	}
+	for i := 0; i < n; i++ {
+		if !expanded[i] && !ok[i] {
+			// a non-quiescent state without recorded delivery successors was not expanded (depth bound): not judged
+			ok[i] = true
+			stack = append(stack, int32(i))
+		}
+	}
+	for len(stack) > 0 {
+		v := stack[len(stack)-1]
+		stack = stack[:len(stack)-1]
+		for _, u := range pred[v] {
+			if !ok[u] {
+				ok[u] = true
+				stack = append(stack, u)
+			}
+		}
+	}
+	stuck := 0
+	first := int32(-1)
+	for i := 0; i < n; i++ {
+		if !ok[i] {
+			stuck++
+			if first < 0 {
+				first = int32(i)
+			}
+		}
+	}
+	b.Res.Count("states_in_settle_analysis", int64(n))
+	if stuck == 0 {
+		return
+	}
+	// reconstruct a history to the first stuck state (breadth-first discovery order: a shortest one)
+	var rev []Event
+	cur := first
+	for b.parent[cur] >= 0 {
+		rev = append(rev, b.parentEv[cur])
+		cur = b.parent[cur]
+	}
+	hist := append([]Event{}, b.rootOf[cur]...)
+	for i := len(rev) - 1; i >= 0; i-- {
+		hist = append(hist, rev[i])
+	}
+	b.OnLivelock(hist, stuck)
 }
 
 // Replay rebuilds a history on a fresh system, running the edge oracle on every step.
